@@ -47,12 +47,13 @@ class FakeRaw:
 
     def _fault_now(self, op):
         f = self.shim.fault
+        self.shim.ops += 1
+        self.shim.op_kinds.append(op[0])
         if f is None or self.dead:
             return None
-        idx = self.shim.ops
-        self.shim.ops += 1
-        if idx == f["at"] and (f.get("on") in (None, op)):
-            return f["kind"]
+        idx = self.shim.ops - 1
+        if idx == f["at"]:
+            return f[op]          # fault = {"at": k, "send": kind, "recv": kind}
         return None
 
     def _die(self):
@@ -169,6 +170,7 @@ class SocketShim:
         self.fault = fault
         self.fault_fired = False
         self.ops = 0
+        self.op_kinds = []
         self.raw = None
         self.raws = []
         self.connects = []
